@@ -154,7 +154,7 @@ type rawState struct {
 	expect    []rawExpect // in link-read order
 	reads     []rawRead
 	writes    []*rawWrite
-	curWrite  *rawWrite
+	curWrite  map[int]*rawWrite // by writer task: WriteTo calls may run concurrently
 	stopErr   error // what the link reported when the reader stopped (nil: still running)
 	linkReads int
 	curBuf    int
@@ -241,9 +241,9 @@ func (st *rawState) start() {
 			}
 		}
 		st.link.OnWrite = func(b []byte, to net.Addr) {
-			if st.curWrite != nil {
-				st.curWrite.frames = append(st.curWrite.frames, b)
-				st.curWrite.dests = append(st.curWrite.dests, to)
+			if w := st.curWrite[s.CurTask()]; w != nil {
+				w.frames = append(w.frames, b)
+				w.dests = append(w.dests, to)
 			}
 			s.Ev("link.tx", -1, int64(len(b)), fmt.Sprint(to), nil)
 		}
@@ -280,28 +280,36 @@ func (st *rawState) start() {
 				}
 			}
 		})
-		j.Go("writer", func() {
-			for i := 0; i < nwrites; i++ {
-				sleep(pick(t, 0, 0, ms(1), ms(2)), siteRawWriter)
-				w := &rawWrite{payload: rawPayload(t, i)}
-				w.dst = &net.UDPAddr{IP: net.IPv4(byte(1+t.Choose(254)), byte(t.Choose(256)), byte(t.Choose(256)), byte(t.Choose(256))), Port: t.Choose(65536)}
-				if t.Coin(1, 3) {
-					w.dst = &net.UDPAddr{IP: net.IPv4bcast, Port: 67}
+		nwriters := 1 + t.Weighted(3, 2) // two writers: WriteTo calls overlap (the link write is a scheduling point)
+		st.curWrite = map[int]*rawWrite{}
+		for wi := 0; wi < nwriters; wi++ {
+			wi := wi
+			j.Go(fmt.Sprintf("writer%d", wi), func() {
+				for i := 0; i < nwrites; i++ {
+					sleep(pick(t, 0, 0, ms(1), ms(2)), siteRawWriter)
+					w := &rawWrite{payload: rawPayload(t, 100*wi+i)}
+					w.dst = &net.UDPAddr{IP: net.IPv4(byte(1+t.Choose(254)), byte(t.Choose(256)), byte(t.Choose(256)), byte(t.Choose(256))), Port: t.Choose(65536)}
+					if t.Coin(1, 3) {
+						w.dst = &net.UDPAddr{IP: net.IPv4bcast, Port: 67}
+					}
+					st.writes = append(st.writes, w)
+					st.curWrite[s.CurTask()] = w
+					orig := append([]byte(nil), w.payload...)
+					s.EnterSUT()
+					_, err := upc.WriteTo(w.payload, w.dst)
+					s.LeaveSUT()
+					delete(st.curWrite, s.CurTask())
+					w.err = err
+					w.seq = s.Ev("write", wi, int64(len(w.payload)), fmt.Sprintf("dst=%v err=%v", w.dst, err), nil)
+					if !bytes.Equal(orig, w.payload) {
+						s.Violate("W-caller-buffer", "WriteTo modified the caller's payload buffer")
+					}
 				}
-				st.writes = append(st.writes, w)
-				st.curWrite = w
-				orig := append([]byte(nil), w.payload...)
-				s.EnterSUT()
-				_, err := upc.WriteTo(w.payload, w.dst)
-				s.LeaveSUT()
-				st.curWrite = nil
-				w.err = err
-				w.seq = s.Ev("write", -1, int64(len(w.payload)), fmt.Sprintf("dst=%v err=%v", w.dst, err), nil)
-				if !bytes.Equal(orig, w.payload) {
-					s.Violate("W-caller-buffer", "WriteTo modified the caller's payload buffer")
-				}
-			}
-		})
+			})
+		}
+		if nwriters > 1 {
+			s.Probe("two-concurrent-writers")
+		}
 		// frames from the link
 		at := ms(0)
 		stopAt := -1
